@@ -49,10 +49,13 @@ struct Thr {
   uint64_t waitStart = 0;
   bool timedOut = false;
   bool woken = false;
+  bool intr = false;
   uint64_t arrival = 0; // FIFO order for wakes
   bool yielded = false;
   int priority = 0;
   long loadStreak = 0;
+  uintptr_t lastPlainElem = 0;
+  int lastPlainKind = -1;
   void* (*fn)(void*) = nullptr;
   void* arg = nullptr;
   void* ret = nullptr;
@@ -85,6 +88,8 @@ struct Sched {
   RunInfo info;
   std::vector<Event> trace;
   std::map<uintptr_t, std::pair<size_t, std::string>> names;
+  std::map<uintptr_t, std::pair<size_t, size_t>> plain;  // start -> (bytes, elemSize)
+  uintptr_t plainLo = ~(uintptr_t)0, plainHi = 0;
   std::map<const void*, MutexRec> mutexes;
   std::map<const void*, long> sems;
   size_t prefixPos = 0;
@@ -190,6 +195,9 @@ void expireTimers() {
     if (t->timed && t->state != T_RUNNABLE && t->state != T_FINISHED && t->deadline <= G.vtime) {
       t->timedOut = true;
       t->timed = false;
+      if (t->state == T_BLK_FUTEX) {  // the waiter leaves the futex queue now: record it here
+        Thr* saved = self; self = t; logEvent(K_FUTEX_WAIT_RET, 0, 4, t->waitAddr, 0, ETIMEDOUT, 0); self = saved;
+      }
       ++G.info.timeoutsFired;
       if (t->deadline - t->waitStart >= G.opt.backstopNs) ++G.info.backstopsFired;
       t->state = T_RUNNABLE;
@@ -219,6 +227,15 @@ int decide(int n) { // n >= 1 options; records the choice
 // choose the next thread to run. `me` may be non-runnable (blocked / finished).
 Thr* pick(Thr* me, bool yielding) {
   expireTimers();
+  if (G.opt.spuriousPerMille > 0 && G.opt.strategy != DFS)
+    for (Thr* t : G.thr)
+      if (t->state == T_BLK_FUTEX && (int)G.rng.below(1000) < G.opt.spuriousPerMille) {
+        t->intr = true;      // a signal interrupts the wait: futex returns -1 / EINTR
+        t->timed = false;
+        t->state = T_RUNNABLE;
+        // the waiter leaves the futex queue now: record it at this point of the trace
+        { Thr* saved = self; self = t; logEvent(K_FUTEX_WAIT_RET, 0, 4, t->waitAddr, 0, EINTR, 0); self = saved; }
+      }
   std::vector<Thr*> run;
   for (Thr* t : G.thr) if (t->state == T_RUNNABLE) run.push_back(t);
   if (run.empty()) {
@@ -293,6 +310,7 @@ void block(TState st, const void* addr, bool timed, uint64_t deadline, const cha
   me->waitStart = G.vtime;
   me->timedOut = false;
   me->woken = false;
+  me->intr = false;
   me->arrival = ++G.arrivals;
   me->what = what;
   ++G.info.steps;
@@ -379,7 +397,14 @@ bool active() { return G.active; }
 const std::vector<Event>& trace() { return G.trace; }
 void setStuckHandler(std::function<void(const RunInfo&)> h) { G.stuck = std::move(h); }
 void nameRegion(const void* addr, size_t bytes, const char* name) { G.names[(uintptr_t)addr] = {bytes, name}; }
-void clearNames() { G.names.clear(); }
+void clearNames() { G.names.clear(); G.plain.clear(); G.plainLo = ~(uintptr_t)0; G.plainHi = 0; }
+void namePlainRegion(const void* addr, size_t bytes, size_t elemSize, const char* name) {
+  nameRegion(addr, bytes, name);
+  uintptr_t a = (uintptr_t)addr;
+  G.plain[a] = {bytes, elemSize};
+  if (a < G.plainLo) G.plainLo = a;
+  if (a + bytes > G.plainHi) G.plainHi = a + bytes;
+}
 
 void note(const char* f, ...) {
   char buf[512];
@@ -392,7 +417,8 @@ void note(const char* f, ...) {
 
 static const char* kindName(Kind k) {
   static const char* n[] = {"load", "store", "xchg", "fadd", "fsub", "fand", "for", "fxor", "cas_ok", "cas_fail", "fence",
-                            "futex_wait", "futex_wait_ret", "futex_wake", "note", "thread_start", "thread_end", "yield", "timeout"};
+                            "futex_wait", "futex_wait_ret", "futex_wake", "note", "thread_start", "thread_end", "yield", "timeout",
+                            "pload", "pstore"};
   return n[k];
 }
 
@@ -521,8 +547,11 @@ long syscall(long number, ...) {
       if (timed) dl = (op == FUTEX_WAIT) ? G.vtime + tsToNs(ts) : tsToNs(ts);
       block(T_BLK_FUTEX, addr, timed, dl, "futex");
       if (self->timedOut) {
-        logEvent(K_FUTEX_WAIT_RET, 0, 4, addr, 0, ETIMEDOUT, 0);
         errno = ETIMEDOUT;
+        return -1;
+      }
+      if (self->intr) {
+        errno = EINTR;
         return -1;
       }
       logEvent(K_FUTEX_WAIT_RET, 0, 4, addr, 0, 0, 0);
@@ -755,29 +784,73 @@ int gettimeofday(struct timeval* tv, void* tz) {
   return 0;
 }
 
+// plain (non-atomic) access to a registered plain region
+static void plainAccess(const void* addr, size_t n, bool isWrite) {
+  uintptr_t a = (uintptr_t)addr;
+  if (a + n <= G.plainLo || a >= G.plainHi) return;   // cheap reject first: also taken before G is constructed
+  if (!managed()) return;
+  auto it = G.plain.upper_bound(a);
+  if (it == G.plain.begin()) return;
+  --it;
+  if (a >= it->first + it->second.first) return;
+  size_t es = it->second.second;
+  uintptr_t first = it->first + ((a - it->first) / es) * es;
+  uintptr_t last = it->first + ((a + (n ? n - 1 : 0) - it->first) / es) * es;
+  for (uintptr_t e = first; e <= last && e < it->first + it->second.first; e += es) {
+    int k = isWrite ? 1 : 0;
+    if (self->lastPlainElem == e && self->lastPlainKind == k) continue;  // same element, same kind: one event
+    schedPoint(false);
+    self->lastPlainElem = e; self->lastPlainKind = k;
+    logEvent(isWrite ? K_PSTORE : K_PLOAD, 0, (int)(es > 255 ? 255 : es), (const void*)e, 0, 0, 0);
+  }
+}
+
 // ---------------------------------------------------------------- __tsan_* interface
 void __tsan_init() {}
 void __tsan_func_entry(void*) {}
 void __tsan_func_exit() {}
 void __tsan_ignore_thread_begin() {}
 void __tsan_ignore_thread_end() {}
-#define DS_PLAIN(n)                              \
-  void __tsan_read##n(void*) {}                  \
-  void __tsan_write##n(void*) {}                 \
-  void __tsan_unaligned_read##n(void*) {}        \
-  void __tsan_unaligned_write##n(void*) {}       \
-  void __tsan_read##n##_pc(void*, void*) {}      \
-  void __tsan_write##n##_pc(void*, void*) {}
+#define DS_PLAIN(n)                                              \
+  void __tsan_read##n(void* a) { plainAccess(a, n, false); }      \
+  void __tsan_write##n(void* a) { plainAccess(a, n, true); }      \
+  void __tsan_unaligned_read##n(void* a) { plainAccess(a, n, false); }  \
+  void __tsan_unaligned_write##n(void* a) { plainAccess(a, n, true); }  \
+  void __tsan_read##n##_pc(void* a, void*) { plainAccess(a, n, false); } \
+  void __tsan_write##n##_pc(void* a, void*) { plainAccess(a, n, true); }
 DS_PLAIN(1) DS_PLAIN(2) DS_PLAIN(4) DS_PLAIN(8) DS_PLAIN(16)
-void __tsan_read_range(void*, unsigned long) {}
-void __tsan_write_range(void*, unsigned long) {}
+void __tsan_read_range(void* a, unsigned long n) { plainAccess(a, n, false); }
+void __tsan_write_range(void* a, unsigned long n) { plainAccess(a, n, true); }
 void __tsan_vptr_update(void**, void*) {}
 void __tsan_vptr_read(void**) {}
 void __tsan_acquire(void*) {}
 void __tsan_release(void*) {}
-void* __tsan_memcpy(void* d, const void* s, unsigned long n) { return memcpy(d, s, n); }
+void* __tsan_memcpy(void* d, const void* s, unsigned long n) { plainAccess(s, n, false); plainAccess(d, n, true); return memcpy(d, s, n); }
 void* __tsan_memset(void* d, int c, unsigned long n) { return memset(d, c, n); }
-void* __tsan_memmove(void* d, const void* s, unsigned long n) { return memmove(d, s, n); }
+void* __tsan_memmove(void* d, const void* s, unsigned long n) { plainAccess(s, n, false); plainAccess(d, n, true); return memmove(d, s, n); }
+
+// clang's TSan pass lowers struct copies to plain `memcpy`/`memmove` calls (libtsan intercepts them);
+// interpose them so that copies into / out of registered plain regions are seen
+void* memcpy(void* d, const void* s, size_t n) {
+  plainAccess(s, n, false);
+  plainAccess(d, n, true);
+  void* ret = d;
+  __asm__ volatile("rep movsb" : "+D"(d), "+S"(s), "+c"(n) : : "memory");
+  return ret;
+}
+void* memmove(void* d, const void* s, size_t n) {
+  plainAccess(s, n, false);
+  plainAccess(d, n, true);
+  void* ret = d;
+  if ((uintptr_t)d <= (uintptr_t)s || (uintptr_t)d >= (uintptr_t)s + n) {
+    __asm__ volatile("rep movsb" : "+D"(d), "+S"(s), "+c"(n) : : "memory");
+  } else {
+    char* dd = (char*)d + n - 1;
+    const char* ss = (const char*)s + n - 1;
+    __asm__ volatile("std\n\trep movsb\n\tcld" : "+D"(dd), "+S"(ss), "+c"(n) : : "memory");
+  }
+  return ret;
+}
 
 void AnnotateIgnoreReadsBegin(const char*, int) {}
 void AnnotateIgnoreReadsEnd(const char*, int) {}
@@ -789,6 +862,7 @@ void AnnotateHappensAfter(const char*, int, const volatile void*) {}
 
 static inline void spinHeuristic(bool isLoad) {
   if (!managed()) return;
+  self->lastPlainKind = -1;
   if (isLoad) {
     if (++self->loadStreak >= 24) { self->loadStreak = 0; schedPoint(true); return; }
   } else {
